@@ -36,6 +36,12 @@ type trSpec struct {
 	assertions map[string][2]string // asserted type (source text) -> (value template, ok template) applied to the operand
 	externMeth map[string]string    // "<qualified receiver type>.<method>" -> Lean function applied to the receiver
 	onlyTypes  map[string]bool      // if non-nil, only these struct types are emitted
+	externCall map[string]externCallSpec // "<pkg path>.<Type>.<Method>" of ANOTHER translated package -> its Lean function
+}
+
+type externCallSpec struct {
+	lean    string
+	mutates bool // returns the updated receiver (as its only / last component)
 }
 
 var trSpecs = []trSpec{
@@ -52,12 +58,28 @@ var trSpecs = []trSpec{
 		optionPtr: map[string]string{"github.com/golang-jwt/jwt/v4.NumericDate": "Go.NumericDate"},
 		externMeth: map[string]string{"github.com/golang-jwt/jwt/v4.NumericDate.IsZero": "Go.NumericDate.IsZero"},
 		skip:      map[string]string{"NewToken": "constructor (time.Unix, jwt.NewNumericDate)"}},
-	{dir: "internal/access", module: "GenAccess", ns: "Gen.access", extraImps: []string{"Relay.Base.GoAccess"},
-		wantedOnly: map[string]bool{"claimsCheck": true, "isRelayAdmin": true, "hasStatsScope": true}, onlyTypes: map[string]bool{},
+	{dir: "internal/access", module: "GenAccess", ns: "Gen.access", extraImps: []string{"Relay.Base.GoAccess", "Relay.Extracted.GenDeny", "Relay.Extracted.GenTtlcode"},
+		wantedOnly: map[string]bool{"claimsCheck": true, "isRelayAdmin": true, "hasStatsScope": true, "denyHandler": true, "allowHandler": true,
+			"listDeniedHandler": true, "listAllowedHandler": true},
+		onlyTypes: map[string]bool{"Config": true},
+		externCall: map[string]externCallSpec{
+			"github.com/practable/relay/internal/deny.Store.Deny":                 {"Gen.deny.Store.Deny", true},
+			"github.com/practable/relay/internal/deny.Store.Allow":                {"Gen.deny.Store.Allow", true},
+			"github.com/practable/relay/internal/deny.Store.GetDenyList":          {"Gen.deny.Store.GetDenyList", false},
+			"github.com/practable/relay/internal/deny.Store.GetAllowList":         {"Gen.deny.Store.GetAllowList", false},
+			"github.com/practable/relay/internal/deny.Store.IsDenied":             {"Gen.deny.Store.IsDenied", false},
+			"github.com/practable/relay/internal/ttlcode.CodeStore.DeleteByBookingID": {"Gen.ttlcode.CodeStore.DeleteByBookingID", true},
+		},
 		emptyIface: "Go.Principal",
 		externTys: map[string]string{"github.com/golang-jwt/jwt/v4.Token": "Go.JwtToken", "github.com/golang-jwt/jwt/v4.Claims": "Go.JwtClaims",
 			"github.com/practable/relay/internal/permission.Token": "Gen.permission.Token",
-			"github.com/golang-jwt/jwt/v4.RegisteredClaims": "Go.RegisteredClaims", "github.com/golang-jwt/jwt/v4.ClaimStrings": "(List String)"},
+			"github.com/golang-jwt/jwt/v4.RegisteredClaims": "Go.RegisteredClaims", "github.com/golang-jwt/jwt/v4.ClaimStrings": "(List String)",
+			"github.com/practable/relay/internal/deny.Store": "Gen.deny.Store", "github.com/practable/relay/internal/ttlcode.CodeStore": "Gen.ttlcode.CodeStore",
+			"github.com/practable/relay/internal/access/restapi/operations.DenyParams":        "Go.BidExpParams",
+			"github.com/practable/relay/internal/access/restapi/operations.AllowParams":       "Go.BidExpParams",
+			"github.com/practable/relay/internal/access/restapi/operations.ListDeniedParams":  "Go.NoParams",
+			"github.com/practable/relay/internal/access/restapi/operations.ListAllowedParams": "Go.NoParams",
+			"github.com/go-openapi/runtime/middleware.Responder":                              "Go.Resp"},
 		optionPtr:  map[string]string{"github.com/golang-jwt/jwt/v4.NumericDate": "Go.NumericDate"},
 		externMeth: map[string]string{"github.com/golang-jwt/jwt/v4.NumericDate.IsZero": "Go.NumericDate.IsZero"},
 		assertions: map[string][2]string{"*jwt.Token": {"%s.token", "%s.isJwt"}, "*permission.Token": {"%s.asToken", "%s.isToken"}}},
@@ -77,6 +99,10 @@ type tr struct {
 	effects map[string]bool          // function closes channels (returns the list of closed channels)
 	locks   map[string]bool          // function takes its receiver's mutex
 	failed  map[string]bool          // functions that turned out untranslatable (their callers are, too)
+	closures map[string]*ast.FuncLit // functions of the form `func f(cfg) func(params…) R { return func(params…) R { body } }`
+	sends    map[string]bool         // function sends on channels (returns the list of values sent)
+	skipped  map[string]bool         // "<struct>.<field>" left out of an emitted struct (unsupported type)
+	curRes   *types.Tuple            // result tuple of the function being translated (the closure's, for closure functions)
 	nonNil  map[string]int           // per function: expressions known to be non-nil on the current path (source text -> depth counter)
 	holding bool                     // per function: the receiver's mutex is held from here on (Lock(); defer Unlock())
 	objFn   map[types.Object]string  // *types.Func -> qualified name
@@ -176,6 +202,10 @@ func (t *tr) leanType(ty types.Type) string {
 			return l
 		}
 		if u.Obj().Pkg() == t.pkg {
+			if st, ok := u.Underlying().(*types.Struct); ok && t.spec.onlyTypes != nil && !t.spec.onlyTypes[u.Obj().Name()] {
+				_ = st
+				unsup("struct type %s is not emitted", u.Obj().Name())
+			}
 			if _, ok := u.Underlying().(*types.Struct); ok {
 				return u.Obj().Name()
 			}
@@ -447,6 +477,15 @@ func (t *tr) expr(e ast.Expr) string {
 			if len(sel.Index()) != 1 {
 				unsup("promoted field %s", x.Sel.Name)
 			}
+			{
+				rt := sel.Recv()
+				if p, ok := rt.(*types.Pointer); ok {
+					rt = p.Elem()
+				}
+				if n, ok := rt.(*types.Named); ok && t.skipped[n.Obj().Name()+"."+x.Sel.Name] {
+					unsup("field %s.%s is outside the translated vocabulary", n.Obj().Name(), x.Sel.Name)
+				}
+			}
 			return t.expr(x.X) + "." + fieldName(x.Sel.Name)
 		}
 		unsup("qualified identifier %s", x.Sel.Name)
@@ -515,6 +554,12 @@ func (t *tr) call(x *ast.CallExpr, want int) (string, bool) {
 		}
 		unsup("conversion %s -> %s", from.String(), to.String())
 	}
+	if r, ok := t.responder(x); ok {
+		return r, false
+	}
+	if se, ok := x.Fun.(*ast.SelectorExpr); ok && se.Sel.Name == "Error" && len(x.Args) == 0 && t.isErrorType(t.typeOf(se.X)) {
+		return "(Go.errStr " + t.expr(se.X) + ")", false
+	}
 	switch f := x.Fun.(type) {
 	case *ast.Ident:
 		switch o := t.info.ObjectOf(f).(type) {
@@ -575,6 +620,13 @@ func (t *tr) call(x *ast.CallExpr, want int) (string, bool) {
 					}
 				}
 			}
+			if ec, ok := t.externCallOf(f); ok {
+				args := []string{"w", t.expr(f.X)}
+				for _, a := range x.Args {
+					args = append(args, t.expr(a))
+				}
+				return "(" + ec.lean + " " + strings.Join(args, " ") + ")", ec.mutates
+			}
 			q, ok := t.qualFn(fn)
 			if !ok {
 				unsup("call of untranslated method %s", fn.Name())
@@ -597,6 +649,9 @@ func (t *tr) call(x *ast.CallExpr, want int) (string, bool) {
 				full := pn.Imported().Path() + "." + f.Sel.Name
 				if full == "errors.New" && len(x.Args) == 1 {
 					return "(some " + t.expr(x.Args[0]) + " : Go.Error)", false
+				}
+				if full == "strconv.Itoa" && len(x.Args) == 1 {
+					return "(Go.itoa " + t.expr(x.Args[0]) + ")", false
 				}
 				unsup("call of %s", full)
 			}
@@ -682,6 +737,9 @@ func (t *tr) isLoggingCall(c *ast.CallExpr) bool {
 	}
 	if obj == nil || obj.Pkg() == nil {
 		return false
+	}
+	if strings.HasSuffix(obj.Pkg().Path(), "internal/verifhook") && obj.Name() == "Point" {
+		return true // a named scheduling point: no data
 	}
 	switch obj.Pkg().Path() {
 	case "log", "github.com/sirupsen/logrus", "log/slog":
@@ -939,8 +997,7 @@ func (t *tr) stmts(list []ast.Stmt, k cont, ind string, inLoop bool) string {
 			unsup("return inside a loop")
 		}
 		vals := []string{}
-		sig := t.funcs[t.curFn]
-		if len(x.Results) == 0 && sig.Type.Results != nil && len(sig.Type.Results.List) > 0 {
+		if len(x.Results) == 0 && t.curRes.Len() > 0 {
 			unsup("bare return with named results")
 		}
 		if len(x.Results) == 1 {
@@ -1038,6 +1095,11 @@ func (t *tr) stmts(list []ast.Stmt, k cont, ind string, inLoop bool) string {
 			unsup("range over %s", t.typeOf(x.X).String())
 		}
 		return ind + "let " + tup + " := " + head + tup + " (fun " + tup + " " + kname + " " + vname + " =>\n" + reindent(body, ind, ind+"    ") + ind + "  )\n" + rest()
+	case *ast.SendStmt:
+		if b, ok := t.typeOf(x.Value).Underlying().(*types.Basic); !ok || b.Info()&types.IsString == 0 {
+			unsup("send of a non-string value")
+		}
+		return ind + "let snd__ := snd__ ++ [" + t.expr(x.Value) + "]\n" + rest()
 	case *ast.BranchStmt:
 		if x.Tok == token.CONTINUE && inLoop && x.Label == nil {
 			return k(ind)
@@ -1052,9 +1114,7 @@ func (t *tr) stmts(list []ast.Stmt, k cont, ind string, inLoop bool) string {
 func reindent(s, from, to string) string { return s }
 
 func (t *tr) resultType(i int) types.Type {
-	fd := t.funcs[t.curFn]
-	sig := t.info.Defs[fd.Name].Type().(*types.Signature)
-	return sig.Results().At(i).Type()
+	return t.curRes.At(i).Type()
 }
 
 // retTuple: (results…, receiver if mutated, effect log if effectful)
@@ -1065,6 +1125,9 @@ func (t *tr) retTuple(vals []string) string {
 	if t.effects[t.curFn] {
 		vals = append(vals, "fx__")
 	}
+	if t.sends[t.curFn] {
+		vals = append(vals, "snd__")
+	}
 	switch len(vals) {
 	case 0:
 		return "()"
@@ -1072,6 +1135,106 @@ func (t *tr) retTuple(vals []string) string {
 		return vals[0]
 	}
 	return "(" + strings.Join(vals, ", ") + ")"
+}
+
+// responder: go-openapi reply constructors `operations.New<Op><Status>()` optionally `.WithPayload(&models.Error{Code: &c, Message: &m})`
+// or `.WithPayload(&models.BookingIDs{BookingIds: d})` -> Go.Resp
+var statusBySuffix = []struct {
+	suffix string
+	code   int
+}{{"Unauthorized", 401}, {"BadRequest", 400}, {"NoContent", 204}, {"InternalServerError", 500}, {"NotFound", 404}, {"OK", 200}}
+
+func (t *tr) responder(x *ast.CallExpr) (string, bool) {
+	ctor := func(c *ast.CallExpr) (int, bool) {
+		se, ok := c.Fun.(*ast.SelectorExpr)
+		if !ok || len(c.Args) != 0 {
+			return 0, false
+		}
+		id, ok := se.X.(*ast.Ident)
+		if !ok {
+			return 0, false
+		}
+		pn, ok := t.info.ObjectOf(id).(*types.PkgName)
+		if !ok || !strings.HasSuffix(pn.Imported().Path(), "restapi/operations") || !strings.HasPrefix(se.Sel.Name, "New") {
+			return 0, false
+		}
+		for _, s := range statusBySuffix {
+			if strings.HasSuffix(se.Sel.Name, s.suffix) {
+				return s.code, true
+			}
+		}
+		return 0, false
+	}
+	if code, ok := ctor(x); ok {
+		return fmt.Sprintf("(Go.Resp.status %d)", code), true
+	}
+	se, ok := x.Fun.(*ast.SelectorExpr)
+	if !ok || se.Sel.Name != "WithPayload" || len(x.Args) != 1 {
+		return "", false
+	}
+	inner, ok := se.X.(*ast.CallExpr)
+	if !ok {
+		return "", false
+	}
+	code, ok := ctor(inner)
+	if !ok {
+		return "", false
+	}
+	arg := x.Args[0]
+	if u, ok := arg.(*ast.UnaryExpr); ok && u.Op == token.AND {
+		arg = u.X
+	}
+	cl, ok := arg.(*ast.CompositeLit)
+	if !ok {
+		unsup("reply payload that is not a composite literal")
+	}
+	fields := map[string]ast.Expr{}
+	for _, el := range cl.Elts {
+		kv, ok := el.(*ast.KeyValueExpr)
+		if !ok {
+			unsup("positional reply payload")
+		}
+		v := kv.Value
+		if u, ok := v.(*ast.UnaryExpr); ok && u.Op == token.AND {
+			v = u.X
+		}
+		fields[kv.Key.(*ast.Ident).Name] = v
+	}
+	switch srcString(cl.Type) {
+	case "models.Error":
+		c, okc := fields["Code"]
+		m, okm := fields["Message"]
+		if !okc || !okm || len(fields) != 2 {
+			unsup("models.Error payload with other fields")
+		}
+		return fmt.Sprintf("(Go.Resp.error %d %s %s)", code, t.expr(c), t.expr(m)), true
+	case "models.BookingIDs":
+		d, ok := fields["BookingIds"]
+		if !ok || len(fields) != 1 {
+			unsup("models.BookingIDs payload with other fields")
+		}
+		return fmt.Sprintf("(Go.Resp.ids %d %s)", code, t.expr(d)), true
+	}
+	unsup("reply payload %s", srcString(cl.Type))
+	return "", false
+}
+
+// externCallOf: the call is a method of a struct of ANOTHER translated package (configured)
+func (t *tr) externCallOf(f *ast.SelectorExpr) (externCallSpec, bool) {
+	sel, ok := t.info.Selections[f]
+	if !ok || sel.Kind() != types.MethodVal {
+		return externCallSpec{}, false
+	}
+	rt := sel.Recv()
+	if p, ok := rt.(*types.Pointer); ok {
+		rt = p.Elem()
+	}
+	n, ok := rt.(*types.Named)
+	if !ok || n.Obj().Pkg() == nil {
+		return externCallSpec{}, false
+	}
+	ec, ok := t.spec.externCall[n.Obj().Pkg().Path()+"."+n.Obj().Name()+"."+sel.Obj().Name()]
+	return ec, ok
 }
 
 // callTarget: the translated callee of a call and whether its Lean value is a tuple that has to be destructured
@@ -1102,6 +1265,25 @@ func (t *tr) callTarget(c *ast.CallExpr) (string, bool) {
 
 // callStmt: a call whose results are bound to `lhs` (nil: discarded), threading receiver and effect log
 func (t *tr) callStmt(lhs []ast.Expr, c *ast.CallExpr, ind string) string {
+	if se, ok := c.Fun.(*ast.SelectorExpr); ok {
+		if ec, ok := t.externCallOf(se); ok {
+			term, _ := t.call(c, len(lhs))
+			if ec.mutates {
+				if len(lhs) != 0 {
+					unsup("results of a receiver-mutating method of another package")
+				}
+				tmp := t.fresh("recv__")
+				return ind + "let " + tmp + " := " + term + "\n" + t.assignTo(se.X, tmp, ind)
+			}
+			if len(lhs) == 1 {
+				return t.assignTo(lhs[0], term, ind)
+			}
+			if len(lhs) == 0 {
+				return ind + "let _ := " + term + "\n"
+			}
+			unsup("multi-value call of a method of another package")
+		}
+	}
 	q, _ := t.callTarget(c)
 	if q == "" {
 		if lhs == nil {
@@ -1215,7 +1397,8 @@ func translatePackage(repo string, sp trSpec, outDir string) (nfn int, notes []s
 	if err != nil {
 		notes = append(notes, "type check: "+err.Error())
 	}
-	t := &tr{spec: sp, fset: fset, info: info, pkg: pkg, funcs: map[string]*ast.FuncDecl{}, mutates: map[string]bool{}, effects: map[string]bool{}, locks: map[string]bool{}, objFn: map[types.Object]string{}}
+	t := &tr{spec: sp, fset: fset, info: info, pkg: pkg, funcs: map[string]*ast.FuncDecl{}, mutates: map[string]bool{}, effects: map[string]bool{}, locks: map[string]bool{}, objFn: map[types.Object]string{},
+		closures: map[string]*ast.FuncLit{}, sends: map[string]bool{}, skipped: map[string]bool{}}
 	var b strings.Builder
 	b.WriteString("import Relay.Base.GoLite\n")
 	for _, im := range sp.extraImps {
@@ -1276,7 +1459,24 @@ func translatePackage(repo string, sp trSpec, outDir string) (nfn int, notes []s
 					sb.WriteString("  -- " + f.Name() + " : shutdown channel of the sweeper goroutine (not data)\n")
 					continue
 				}
-				sb.WriteString("  " + fieldName(f.Name()) + " : " + t.leanType(f.Type()) + "\n")
+				ft, okT := func() (res string, ok bool) {
+					defer func() {
+						if r := recover(); r != nil {
+							if _, isU := r.(unsupported); isU {
+								ok = false
+								return
+							}
+							panic(r)
+						}
+					}()
+					return t.leanType(f.Type()), true
+				}()
+				if !okT {
+					sb.WriteString("  -- " + f.Name() + " : " + f.Type().String() + " (outside the translated vocabulary: functions that touch it are untranslated)\n")
+					t.skipped[sd.name+"."+f.Name()] = true
+					continue
+				}
+				sb.WriteString("  " + fieldName(f.Name()) + " : " + ft + "\n")
 				nf++
 			}
 			if nf == 0 {
@@ -1314,6 +1514,13 @@ func translatePackage(repo string, sp trSpec, outDir string) (nfn int, notes []s
 			t.funcs[q] = fd
 			t.objFn[info.Defs[fd.Name]] = q
 			order = append(order, q)
+			if len(fd.Body.List) == 1 {
+				if rs, ok := fd.Body.List[0].(*ast.ReturnStmt); ok && len(rs.Results) == 1 {
+					if fl, ok := rs.Results[0].(*ast.FuncLit); ok && fd.Recv == nil {
+						t.closures[q] = fl
+					}
+				}
+			}
 		}
 	}
 	// which functions mutate their pointer receiver / close channels (fixpoint over the call graph)
@@ -1325,6 +1532,24 @@ func translatePackage(repo string, sp trSpec, outDir string) (nfn int, notes []s
 			recvObj = info.Defs[fd.Recv.List[0].Names[0]]
 			_, ptr = fd.Recv.List[0].Type.(*ast.StarExpr)
 		}
+		if _, isClosure := t.closures[q]; isClosure && fd.Type.Params != nil && len(fd.Type.Params.List) > 0 && len(fd.Type.Params.List[0].Names) == 1 {
+			// the first parameter of the outer function (the configuration holding pointers to the shared stores) is threaded like a receiver
+			recvObj = info.Defs[fd.Type.Params.List[0].Names[0]]
+			ptr = true
+		}
+		ast.Inspect(fd.Body, func(n ast.Node) bool {
+			if _, ok := n.(*ast.SendStmt); ok {
+				t.sends[q] = true
+			}
+			if c, ok := n.(*ast.CallExpr); ok {
+				if se, ok := c.Fun.(*ast.SelectorExpr); ok {
+					if ec, ok := t.externCallOf(se); ok && ec.mutates && ptr && recvObj != nil && t.rootObj(se.X) == recvObj {
+						t.mutates[q] = true
+					}
+				}
+			}
+			return true
+		})
 		ast.Inspect(fd.Body, func(n ast.Node) bool {
 			switch x := n.(type) {
 			case *ast.AssignStmt:
@@ -1468,6 +1693,25 @@ func (t *tr) function(q string, fd *ast.FuncDecl, failed map[string]bool) (code 
 	t.holding = false
 	t.recvObj = nil
 	sig := t.info.Defs[fd.Name].Type().(*types.Signature)
+	bodyList := fd.Body.List
+	var stateType types.Type
+	if sig.Recv() != nil {
+		stateType = sig.Recv().Type()
+	}
+	closureParams := []*types.Var{}
+	t.curRes = sig.Results()
+	if fl, ok := t.closures[q]; ok {
+		lsig := t.info.Types[fl].Type.(*types.Signature)
+		for i := 0; i < lsig.Params().Len(); i++ {
+			closureParams = append(closureParams, lsig.Params().At(i))
+		}
+		t.curRes = lsig.Results()
+		bodyList = fl.Body.List
+		if sig.Params().Len() > 0 {
+			t.recvObj = sig.Params().At(0)
+			stateType = sig.Params().At(0).Type()
+		}
+	}
 	params := []string{"(w : Go.World)"}
 	if fd.Recv != nil && len(fd.Recv.List) == 1 {
 		r := fd.Recv.List[0]
@@ -1491,29 +1735,39 @@ func (t *tr) function(q string, fd *ast.FuncDecl, failed map[string]bool) (code 
 		}
 		params = append(params, "("+t.nameOf(p)+" : "+t.leanType(p.Type())+")")
 	}
+	for _, p := range closureParams {
+		if p.Name() == "" || p.Name() == "_" {
+			params = append(params, "(_ : "+t.leanType(p.Type())+")")
+			continue
+		}
+		params = append(params, "("+t.nameOf(p)+" : "+t.leanType(p.Type())+")")
+	}
 	if sig.Variadic() {
 		unsup("variadic function")
 	}
 	rts := []string{}
-	for i := 0; i < sig.Results().Len(); i++ {
-		if sig.Results().At(i).Name() != "" {
+	for i := 0; i < t.curRes.Len(); i++ {
+		if t.curRes.At(i).Name() != "" {
 			unsup("named results")
 		}
-		rts = append(rts, t.leanType(sig.Results().At(i).Type()))
+		rts = append(rts, t.leanType(t.curRes.At(i).Type()))
 	}
 	if t.mutates[q] {
-		rts = append(rts, t.leanType(sig.Recv().Type()))
+		rts = append(rts, t.leanType(stateType))
 	}
 	if t.effects[q] {
 		rts = append(rts, "(List Go.Chan)")
+	}
+	if t.sends[q] {
+		rts = append(rts, "(List String)")
 	}
 	rt := "Unit"
 	if len(rts) > 0 {
 		rt = strings.Join(rts, " × ")
 	}
 	t.aliasDiscipline(fd)
-	body := t.stmts(fd.Body.List, func(ind2 string) string {
-		if sig.Results().Len() > 0 {
+	body := t.stmts(bodyList, func(ind2 string) string {
+		if t.curRes.Len() > 0 {
 			unsup("function can fall off its end") // cannot happen in compiled Go, but the CPS needs a value
 		}
 		return ind2 + t.retTuple(nil) + "\n"
@@ -1524,6 +1778,9 @@ func (t *tr) function(q string, fd *ast.FuncDecl, failed map[string]bool) (code 
 	head := "def " + q + " " + strings.Join(params, " ") + " : " + rt + " :=\n"
 	if t.effects[q] {
 		head += "  let fx__ : List Go.Chan := []\n"
+	}
+	if t.sends[q] {
+		head += "  let snd__ : List String := []\n"
 	}
 	return head + body, ""
 }
